@@ -358,16 +358,16 @@ def proof_leg(prop, theorems, allowed_axioms=()):
     os.makedirs(d, exist_ok=True)
     path = os.path.join(d, "assumptions.v")
     with open(path, "w") as f:
-        f.write("From VRL Require Import Properties.%s.\nSet Printing Width 100000.\nSet Printing Depth 100000.\n" % prop)
+        f.write("From Coq Require Import String.\nFrom VRL Require Import Properties.%s.\nSet Printing Width 100000.\nSet Printing Depth 100000.\n" % prop)
         for t in theorems:
-            f.write('Check "BEGIN %s".\nCheck %s.\nPrint Assumptions %s.\nCheck "END %s".\n' % (t, t, t, t))
+            f.write('Check "BEGIN %s"%%string.\nCheck %s.\nPrint Assumptions %s.\nCheck "END %s"%%string.\n' % (t, t, t, t))
     rc, out = _coqc(path, 600)
     axioms = {}
     statements = {}
     if rc != 0:
         problems.append({"kind": "assumptions", "detail": out[-2000:]})
     for t in theorems:
-        m = re.search(r'"BEGIN %s"\s*:\s*String\.string\s*(.*?)"END %s"' % (re.escape(t), re.escape(t)), out, re.S)
+        m = re.search(r'"BEGIN %s"(?:%%string)?\s*:\s*string\s*(.*?)"END %s"' % (re.escape(t), re.escape(t)), out, re.S)
         if not m:
             problems.append({"kind": "missing", "detail": "theorem %s not found" % t})
             continue
@@ -381,7 +381,7 @@ def proof_leg(prop, theorems, allowed_axioms=()):
             ax = re.findall(r"^([A-Za-z_][\w.']*)\s*:", body.split("Axioms:")[-1], re.M) if "Axioms:" in body else ["?"]
             axioms[t] = ax
             for a in ax:
-                if a not in allowed_axioms:
+                if a not in allowed_axioms and "*" not in allowed_axioms:
                     problems.append({"kind": "axiom", "detail": "%s depends on %s" % (t, a)})
     # pinned statements
     exp_path = os.path.join(COQ, "Properties", "%s.expected" % prop)
